@@ -175,7 +175,7 @@ func (p *Path) pickNext(exclude *Thread) *Thread {
 	if len(cands) == 1 {
 		return cands[0]
 	}
-	c := p.decide(len(cands), nil)
+	c := p.decideCtl(len(cands))
 	p.res.SchedPoints++
 	return cands[c]
 }
@@ -237,7 +237,7 @@ func (p *Path) schedPoint(why string) {
 		return
 	}
 	p.res.SchedPoints++
-	c := p.decide(1+len(others), nil)
+	c := p.decideCtl(1 + len(others))
 	if c == 0 {
 		return
 	}
@@ -551,7 +551,7 @@ func (p *Path) selectOp(instr *ssa.Select, fr *frame) value {
 		if len(ready) > 0 {
 			c := 0
 			if len(ready) > 1 {
-				c = p.decide(len(ready), nil)
+				c = p.decideCtl(len(ready))
 			}
 			i := ready[c]
 			s := states[i]
